@@ -45,15 +45,6 @@ import (
 
 const vC09MaxPeerRecord = 8 << 10 // the property's bound, restated (not pb.MaxPeerRecordSize)
 
-// vC09ValueDsKey recomputes the datastore key of a value record (records/value_store.go valueDsKey).
-func vC09ValueDsKey(key string) ds.Key {
-	ns, _, _ := record.SplitKey(key)
-	if ns == "providers" {
-		ns = base32.RawStdEncoding.EncodeToString([]byte(ns))
-	}
-	return ds.NewKey("/" + ns + "/" + base32.RawStdEncoding.EncodeToString([]byte(key)))
-}
-
 func vC09ProvDsKey(key []byte, p peer.ID) string {
 	return ds.NewKey("/providers/" + base32.RawStdEncoding.EncodeToString(key) + "/" + base32.RawStdEncoding.EncodeToString([]byte(p))).String()
 }
@@ -295,7 +286,7 @@ func vC09NewSrv(t *testing.T, c *vh.Case) *vC09Srv {
 		s.valKeys = append(s.valKeys, key)
 	}
 	plant := func(key string, raw []byte) {
-		if err := n.J.Put(ctx, vC09ValueDsKey(key), raw); err != nil {
+		if err := n.J.Put(ctx, vInValueDsKey(key), raw); err != nil {
 			panic(err)
 		}
 		s.planted = append(s.planted, key)
@@ -712,14 +703,14 @@ func (s *vC09Srv) exchange(st *vInStream, f *vC09Frame, what string) bool {
 			if typ == pb.Message_PUT_VALUE {
 				rec := sent.GetRecord()
 				ok := rec != nil && len(key) > 0 && bytes.Equal(rec.GetKey(), key) && vInValidator{}.Validate(string(key), rec.GetValue()) == nil
-				c.Check(ok, "put-ack-implies-valid-record", "%s: PUT_VALUE acknowledged for record kind %s (message key %q, record key %q)", what, f.RecKind, trimKey(key), trimKey(rec.GetKey()))
+				c.Check(ok, "put-ack-implies-valid-record", "%s: PUT_VALUE acknowledged for record kind %s (message key %q, record key %q)", what, f.RecKind, vInTrim(key), vInTrim(rec.GetKey()))
 				c.Check(proto.Equal(resp.GetRecord(), rec), "reply-well-formed", "%s: PUT_VALUE echo carries a different record", what)
 			}
 		case pb.Message_GET_VALUE:
 			c.Check(bytes.Equal(resp.GetKey(), key), "reply-well-formed", "%s: GET_VALUE reply key differs from the request key", what)
 			s.checkCloser(typ, key, from, resp, table, known, what)
 			if rec := resp.GetRecord(); rec != nil {
-				c.Check(bytes.Equal(rec.GetKey(), key), "get-value-record-has-requested-key", "%s: record key %q served for request key %q", what, trimKey(rec.GetKey()), trimKey(key))
+				c.Check(bytes.Equal(rec.GetKey(), key), "get-value-record-has-requested-key", "%s: record key %q served for request key %q", what, vInTrim(rec.GetKey()), vInTrim(key))
 				tr, err := internal.ParseRFC3339(rec.GetTimeReceived())
 				c.Check(err == nil && time.Since(tr) <= s.maxAge, "get-value-record-not-expired", "%s: served record received at %q (now %v, max age %v)", what, rec.GetTimeReceived(), time.Now().UTC(), s.maxAge)
 				c.Obs("get_value_records_served", 1)
@@ -815,7 +806,7 @@ func (s *vC09Srv) exchange(st *vInStream, f *vC09Frame, what string) bool {
 			c.Obs("peerstore_addresses_gained", n)
 		}
 	case pb.Message_PUT_VALUE:
-		wantKey := vC09ValueDsKey(string(key)).String()
+		wantKey := vInValueDsKey(string(key)).String()
 		for _, e := range puts {
 			rec := new(recpb.Record)
 			ok := e.Key == wantKey && proto.Unmarshal(e.Value, rec) == nil && bytes.Equal(rec.GetKey(), key) && vInValidator{}.Validate(string(key), rec.GetValue()) == nil
@@ -835,13 +826,6 @@ func firstKey(es []vjds.Entry) string {
 		return ""
 	}
 	return es[0].Key
-}
-
-func trimKey(b []byte) string {
-	if len(b) > 40 {
-		return fmt.Sprintf("%x…(%d bytes)", b[:16], len(b))
-	}
-	return string(b)
 }
 
 func vC09AddrString(b []byte) string {
@@ -918,7 +902,7 @@ func (s *vC09Srv) finish(st *vInStream, what string) {
 }
 
 func TestVerif_C09_frames(t *testing.T) {
-	vh.Run(t, vh.Spec{Prop: "C09", Unit: "frames", Quick: 110, Thorough: 6000, CostMs: 120,
+	vh.Run(t, vh.Spec{Prop: "C09", Unit: "frames", Quick: 160, Thorough: 8000, CostMs: 80,
 		Rule: "per case one server-mode DHT (K in {1,2,3,5,8,20,64}, 0..3K+8 table peers, peerstore with none/public/private/relay/64 long dns addresses per peer, 3 provider keys, valid + planted expired/mis-filed/corrupt value entries, address filter in half the cases) and 12-30 inbound streams from table peers / strangers / peerstore-only peers / the node's own id, 1-4 generated frames each: type in {0..5, unknown enums} x key {empty,1,32,80,81,4 KiB, table peer, requester, self, stored key, planted key, provider key} x record {nil, ok, wrong key, invalid, empty, huge, foreign, garbage} x provider/closer lists {sender, other, self, empty id, garbage id} x addresses {none, public, private, loopback, relay, mixed, undecodable, 40 long dns, 10^4 public, 10^4 undecodable}; a control PING on a fresh stream after every frame; non-trivial = at least one frame answered, one reset and one ADD_PROVIDER judged; distinct by (K, table size, outcome sequence)",
 		Clauses: []string{"one-reply-or-reset", "control-ping-answered", "closer-at-most-k", "closer-never-requester-or-self", "closer-ascending", "closer-are-nearest-of-table", "find-node-target-first", "find-node-only-peers-with-addresses", "peer-record-at-most-8k", "reply-within-message-limit", "echo-without-peer-records", "get-value-record-has-requested-key", "get-value-record-not-expired", "add-provider-stored-iff-valid", "add-provider-never-answered", "peerstore-gains-only-filtered-sender-addresses", "read-requests-write-nothing", "valid-request-answered", "handler-ends-after-reset", "handler-ends-after-eof", "providers-are-stored-providers"}},
 		func(c *vh.Case) {
